@@ -147,6 +147,7 @@ type interpreter struct {
 	monitor   *monitor
 	unsupportedSeen map[string]int
 	finfo     map[*ssa.Function]*funcInfo
+	underTest func(string) bool
 }
 
 type deferred struct {
@@ -376,6 +377,11 @@ func visitInstr(fr *frame, instr ssa.Instruction) continuation {
 		fr.env[fr.info.index[instr]] = newOmap(instr.Type().Underlying().(*types.Map).Key())
 
 	case *ssa.Range:
+		if fr.i.monitor != nil {
+			if m, ok := fr.get(instr.X).(*omap); ok && m != nil {
+				fr.i.monitor.onMapRead(fr, m)
+			}
+		}
 		fr.env[fr.info.index[instr]] = rangeIter(fr, fr.get(instr.X))
 
 	case *ssa.Next:
@@ -448,6 +454,11 @@ func visitInstr(fr *frame, instr ssa.Instruction) continuation {
 		}
 
 	case *ssa.Lookup:
+		if fr.i.monitor != nil {
+			if m, ok := fr.get(instr.X).(*omap); ok && m != nil {
+				fr.i.monitor.onMapRead(fr, m)
+			}
+		}
 		fr.env[fr.info.index[instr]] = lookup(instr, fr.get(instr.X), fr.get(instr.Index))
 
 	case *ssa.MapUpdate:
